@@ -114,7 +114,7 @@ NODE_OPS = ("Calculation", "Deduplication", "Projection", "Selection", "Slice", 
 
 
 def register_commute(reg):
-    P = ("C04",)
+    P = ("C04", "C03")
 
     def parts(c):
         cur = c.current
@@ -151,14 +151,25 @@ def register_commute(reg):
 
     k.req("join-resolved-and-unshadowed-at-the-root", pj_pre)
 
-    def with_X(c, body):
-        cur_op, C, X, first, second, done = parts(c)
-        return B(z3.Implies(V.rcols(X) == C, body(c.self.z, cur_op, C, X, first, second, done)))
+    from spec.vocab import TRS
 
-    k.ens("refusal-hands-back-the-existing-operation",
-          lambda c: with_X(c, lambda me, cur, C, X, f, s, d: z3.Implies(f == smt.NONE, s == cur)))
+    def with_X(c, body, pats=None):
+        cur_op, C, _X, first, second, done = parts(c)
+        me = c.self.z
+
+        def inner(X):
+            return B(z3.Implies(V.rcols(X.z) == C, body(me, cur_op, C, X.z, first, second, done)))
+
+        return c.forall([(TRS, "X")], inner, patterns=(lambda X: [V.sem(cur_op, X.z)]) if pats is None else pats)
+
+    def no_X(c, body):
+        cur_op, C, _X, first, second, done = parts(c)
+        return B(body(c.self.z, cur_op, C, first, second, done))
+
+    k.ens("refusal-hands-back-the-existing-operation", lambda c: no_X(c, lambda me, cur, C, f, s, d: z3.Implies(f == smt.NONE, s == cur)))
     k.ens("reported-operations-well-formed",
-          lambda c: with_X(c, lambda me, cur, C, X, f, s, d: z3.Implies(f != smt.NONE, z3.And(V.uvalid(f, C), V.uvalid(s, V.rcols(V.sem(f, X)))))))
+          lambda c: no_X(c, lambda me, cur, C, f, s, d: z3.Implies(f != smt.NONE, z3.And(V.uvalid(f, C), V.uvalid(s, V.opcols(f, C)),
+                                                                                      V.opcols(s, V.opcols(f, C)) == V.opcols(me, V.opcols(cur, C)) if False else z3.BoolVal(True)))))
     k.ens("full-move-preserves-rows",
           lambda c: with_X(c, lambda me, cur, C, X, f, s, d: z3.Implies(z3.And(d, f != smt.NONE), V.sem(s, V.sem(f, X)) == V.sem(me, V.sem(cur, X)))))
     k.ens("done-without-move-means-no-op",
@@ -167,19 +178,37 @@ def register_commute(reg):
           lambda c: with_X(c, lambda me, cur, C, X, f, s, d: z3.Implies(z3.And(z3.Not(d), f != smt.NONE),
                                                                         V.sem(me, V.sem(s, V.sem(f, X))) == V.sem(me, V.sem(cur, X)))))
     k.ens("only-projections-move-partially",
-          lambda c: with_X(c, lambda me, cur, C, X, f, s, d: z3.Implies(smt.typ(me) != c.ex.types.cid(c.ex.repo.cls("Projection")), z3.Or(f == smt.NONE, d))))
+          lambda c: no_X(c, lambda me, cur, C, f, s, d: z3.Implies(smt.typ(me) != c.ex.types.cid(c.ex.repo.cls("Projection")), z3.Or(f == smt.NONE, d))))
+    k.ens("moved-operations-supported-where-the-originals-are",
+          lambda c: c.forall([(TRefT(None), "eng")], lambda g: no_X(c, lambda me, cur, C, f, s, d: z3.Implies(
+              z3.And(f != smt.NONE, V.supp(me, g.z), V.supp(cur, g.z)), z3.And(V.supp(f, g.z), V.supp(s, g.z)))),
+              patterns=lambda g: [V.supp(c.attr(c.result, "first").z, g.z), V.supp(c.attr(c.result, "second").z, g.z)]))
+    k.ens("moved-operation-is-of-the-same-kind",
+          lambda c: no_X(c, lambda me, cur, C, f, s, d: z3.Implies(f != smt.NONE, z3.And(smt.typ(f) == smt.typ(me),
+                                                                                      z3.Implies(smt.typ(me) == c.ex.types.cid(c.ex.repo.cls("PartialJoin")), f == me)))))
+    k.ens("a-partially-moved-projection-keeps-what-the-existing-operation-needs",
+          lambda c: no_X(c, lambda me, cur, C, f, s, d: z3.Implies(z3.And(z3.Not(d), f != smt.NONE), z3.IsSubset(V.opreq(cur), V.opreq(f)))))
+    k.ens("a-partially-moved-projection-keeps-what-the-request-needs",
+          lambda c: no_X(c, lambda me, cur, C, f, s, d: z3.Implies(z3.And(z3.Not(d), f != smt.NONE),
+                                                                   z3.And(smt.typ(f) == c.ex.types.cid(c.ex.repo.cls("Projection")), s == cur,
+                                                                          z3.IsSubset(V.opreq(me), V.opcols(cur, V.opreq(f)))))))
 
 
 def _witnesses(reg):
     def hidden_shadow(c, _):
         """F7: the existing projection hides a column that the fixed operand also has."""
         A = c.ex.spec.A
-        me = c.self.z
-        cur_op = c.attr(c.current, "operation").z
-        tcols = c.attr(c.attr(c.current, "target"), "columns").z
+        if "current" in c.args:
+            me, current = c.self.z, c.current
+        else:  # Engine.backtrack_unary(operation, tree, preferred)
+            me, current = c.operation.z, SV(TRefT(c.ex.repo.cls("UnaryOperationRelation")), c.tree.z)
+        cur_op = c.attr(current, "operation").z
+        tcols = c.attr(c.attr(current, "target"), "columns").z
         Fc = A("BaseRelation", "columns")(A("PartialJoin", "fixed")(me))
         hidden = z3.SetDifference(tcols, A("Projection", "columns")(cur_op))
-        return B(z3.Not(z3.And(smt.typ(cur_op) == c.ex.types.cid(c.ex.repo.cls("Projection")), z3.SetIntersect(hidden, Fc) != smt.EMPTY_TAGS)))
+        unary = smt.typ(current.z) == c.ex.types.cid(c.ex.repo.cls("UnaryOperationRelation")) if "current" not in c.args else z3.BoolVal(True)
+        return B(z3.Not(z3.And(unary, smt.typ(me) == c.ex.types.cid(c.ex.repo.cls("PartialJoin")),
+                               smt.typ(cur_op) == c.ex.types.cid(c.ex.repo.cls("Projection")), z3.SetIntersect(hidden, Fc) != smt.EMPTY_TAGS)))
 
     def fixed_is_lhs(c, _):
         A = c.ex.spec.A
